@@ -127,6 +127,11 @@ func GetEnv() Env {
 	return e
 }
 
+// KeepGC: leave the garbage collector on (checks without a bubble world — pure enumerations that allocate
+// a lot inside one case — set it; with the collector off a worker grows to its memory limit, and 16 workers
+// of two concurrent runs have been killed by the kernel's OOM killer).
+var KeepGC bool
+
 var hbFile *os.File
 
 // Heartbeat tells the driver's hang watchdog that the current case is still completing executions (a
@@ -216,8 +221,10 @@ func Main(t *testing.T, property string, cases []Case, params map[string]any) {
 	perKey := map[string]int{}
 	// The garbage collector's background workers perturb goroutine scheduling (which matters wherever
 	// a check has to rely on cooperative yields): collect only at deterministic points, between cases.
-	debug.SetGCPercent(-1)
-	debug.SetMemoryLimit(3 << 30)
+	if !KeepGC {
+		debug.SetGCPercent(-1)
+	}
+	debug.SetMemoryLimit(1536 << 20)
 	sinceGC := 0
 	for idx, c := range cases {
 		if idx%env.NShards != env.Shard || idx < env.From {
